@@ -15,6 +15,10 @@ func init() {
 
 func propC07(c *Ctx) {
 	l := c.L
+	defer func() {
+		rcf := c.Rule("copy-fields", "Copy of an error value builds a new value with every field, the wrapped *Error copied (script code that derives an error with err.New must not rewrite the process-wide builtin error values)", 2)
+		ruleCopyFields(c, rcf, "Error", "RuntimeError")
+	}()
 	rr := c.Rule("run-reset", "every VM field that code reachable from the dispatch loop stores to is stored again on every path from Run's entry to the start of the loop (so no value left by a previous run - finished, failed, panicked or aborted - is read), unless it is an audited persistent field", 5)
 	vf := getVMFacts(c, rr)
 	if vf == nil {
